@@ -116,6 +116,63 @@ def raw_libraries(max_classes=5, max_funcs=5):
 
 # ---- model ------------------------------------------------------------------------------------------------
 
+# ---- a class with every flavour of property (C11 / C03): sequence, mapping with a key sequence, has/clear, deleter ----------------
+
+def props_header(variant=0):
+    """-> (header text, implementation text, {element scoped name: {link field: function name}}).  `variant` moves the class's
+    functions to other positions of the database (padding methods before the properties)."""
+    pad = "".join("  int pad%d(int a = %d) const { return a; }\n" % (i, i) for i in range(variant % 4))
+    h = """
+class VfReg {
+PUBLISHED:
+  VfReg() {}
+%s  int get_num_slots() const { return 3; }
+  int get_slot(int n) const { return _slots[n %% 3]; }
+  void set_slot(int n, int v) { _slots[n %% 3] = v; }
+  void remove_slot(int n) { _slots[n %% 3] = 0; }
+  void insert_slot(int n, int v) { _slots[n %% 3] += v; }
+  MAKE_SEQ_PROPERTY(slots, get_num_slots, get_slot, set_slot, remove_slot, insert_slot);
+  int get_num_tags() const { return 2; }
+  int get_tag(int n) const { return n + 40; }
+  MAKE_SEQ_PROPERTY(tags, get_num_tags, get_tag);
+  bool has_entry(int key) const { return key >= 0 && key < 3; }
+  double get_entry(int key) const { return _slots[key %% 3] + 0.5; }
+  void set_entry(int key, double value) { _slots[key %% 3] = (int)value; }
+  void clear_entry(int key) { _slots[key %% 3] = -1; }
+  int get_num_entries() const { return 3; }
+  int get_entry_key(int n) const { return n; }
+  MAKE_MAP_PROPERTY(entries, has_entry, get_entry, set_entry, clear_entry);
+  MAKE_MAP_KEYS_SEQ(entries, get_num_entries, get_entry_key);
+  bool has_peer(int key) const { return key == 1; }
+  int get_peer(int key) const { return key * 2; }
+  MAKE_MAP_PROPERTY(peers, has_peer, get_peer);
+  bool has_size() const { return _size >= 0; }
+  int get_size() const { return _size; }
+  void set_size(int s) { _size = s; }
+  void clear_size() { _size = -1; }
+  MAKE_PROPERTY2(size, has_size, get_size, set_size, clear_size);
+  int get_label() const { return _label; }
+  void set_label(int l) { _label = l; }
+  void del_label() { _label = 0; }
+  MAKE_PROPERTY(label, get_label, set_label, del_label);
+private:
+  int _slots[3] = {1, 2, 3};
+  int _size = 5;
+  int _label = 9;
+};
+""" % pad
+    expect = {
+        "VfReg::slots": {"length_function": "get_num_slots", "getter": "get_slot", "setter": "set_slot", "del_function": "remove_slot", "insert_function": "insert_slot"},
+        "VfReg::tags": {"length_function": "get_num_tags", "getter": "get_tag"},
+        "VfReg::entries": {"has_function": "has_entry", "getter": "get_entry", "setter": "set_entry", "del_function": "clear_entry",
+                           "length_function": "get_num_entries", "getkey_function": "get_entry_key"},
+        "VfReg::peers": {"has_function": "has_peer", "getter": "get_peer"},
+        "VfReg::size": {"has_function": "has_size", "getter": "get_size", "setter": "set_size", "clear_function": "clear_size"},
+        "VfReg::label": {"getter": "get_label", "setter": "set_label", "del_function": "del_label"},
+    }
+    return h, "", expect
+
+
 # ---- a class template whose instantiations are exported through typedefs (C01 / C03 / C11) --------------------------
 
 TEMPLATE_HEADER = """
@@ -203,6 +260,21 @@ def with_arith_family(raw, pairs=False):
     fam = [{"params": [prim(i)], "ret": prim(6), "ndef": 0, "dv": 0} for i in (4, 6, 12, 13, 2, 3, 10, 0)]
     fam2 = [{"params": [prim(6), prim(i)], "ret": prim(13), "ndef": 0, "dv": 0} for i in (5, 7, 9, 12, 13, 1)]
     raw["funcs"] = list(raw.get("funcs", [])) + [{"ovs": fam, "file": 0, "inpub": True, "doc": 0}, {"ovs": fam2, "file": 0, "inpub": True, "doc": 0}]
+    return raw
+
+
+def with_member_defaults(raw):
+    """adds to every class a published method whose default argument names a constant member of the class; the constant's
+    visibility cycles through published / public / protected / private (generated code cannot name the last two)"""
+    raw = dict(raw)
+    classes = []
+    for i, c in enumerate(raw.get("classes", [])):
+        c = dict(c)
+        m = {"m": "method", "vis": 0, "static": i % 3 == 1, "const": i % 2 == 0, "virt": 0, "doc": 0, "ovvis": [],
+             "ovs": [{"params": [{"k": "prim", "p": (6, 5, 8, 3)[i % 4]}], "ret": {"k": "prim", "p": 6}, "ndef": 1, "dv": 1 + 3 * ((i + 2) % 4)}]}
+        c["members"] = list(c["members"]) + [m]
+        classes.append(c)
+    raw["classes"] = classes
     return raw
 
 
@@ -573,7 +645,8 @@ def build(raw, opts=None):
                     s_["ovs"] = [{"ov": 0, "params": [t], "pnames": ["value"], "defaults": [None], "ret": Type("void")}]
                     c["members"].append(s_)
                 p = lib.ent(kind="property", cls=c, vis="published", getter=g, setter=s_, t=t, file=c["file"])
-                p["name"] = "p%d" % p["id"]
+                # the k-th property of every class has the same name: by-name tables must keep classes apart
+                p["name"] = "prop%d" % sum(1 for x in c["members"] if x["kind"] == "property")
                 c["members"].append(p)
                 lib.features.add("api.property")
             elif m == "seq":
@@ -584,7 +657,7 @@ def build(raw, opts=None):
                 g["name"] = "get_s%d" % g["id"]
                 g["ovs"] = [{"ov": 0, "params": [Type("prim", "int")], "pnames": ["n"], "defaults": [None], "ret": Type("prim", "int")}]
                 s_ = lib.ent(kind="seq", cls=c, vis="published", num=n, get=g, file=c["file"])
-                s_["name"] = "s%d_items" % s_["id"]
+                s_["name"] = "get_items%d" % sum(1 for x in c["members"] if x["kind"] == "seq")      # same name in every class
                 c["members"] += [n, g, s_]
                 lib.features.add("api.seq")
             elif m == "op":
@@ -617,6 +690,11 @@ def build(raw, opts=None):
                 e["const"] = const
                 e["ovs"] = [{"ov": 0, "params": params, "pnames": ["a%d" % i for i in range(len(params))], "defaults": [None] * len(params),
                              "ret": ret}]
+                if opname == "()" and t.kind != "prim":
+                    # an overloaded call operator: the slot wrapper dispatches over a set of remaps
+                    for ps in ([Type("cstr")], [Type("prim", "double")], [intt, intt, intt]):
+                        e["ovs"].append({"ov": len(e["ovs"]), "params": ps, "pnames": ["a%d" % i for i in range(len(ps))], "defaults": [None] * len(ps), "ret": ret})
+                    lib.features.add("api.operator.overloaded")
                 c["members"].append(e)
                 lib.features.add("api.operator")
         if c.get("abstract"):
@@ -721,6 +799,19 @@ def _sigs(lib, rawsigs, rtype, ent):
             d = _default_for(params[i], rs["dv"] + i, lib)
             if d is None:
                 break
+            cls_ = ent.get("cls")
+            if cls_ is not None and params[i].kind == "prim" and params[i].name in INTLIKE and params[i].name not in ("bool", "char") and (rs["dv"] + i) % 3 == 1:
+                # the default names a constant member of the class declared earlier (published, public, protected or private): generated
+                # code lives outside the class and cannot name the inaccessible ones
+                consts = [m_ for m_ in cls_["members"] if m_["kind"] == "field" and m_.get("static") and m_.get("const")]
+                if not consts:
+                    f_ = lib.ent(kind="field", cls=cls_, vis=VIS[(rs["dv"] + i) // 3 % 4], t=Type("prim", "int"), static=True, const=True, file=cls_["file"])
+                    f_["name"] = "f%d_data" % f_["id"]
+                    cls_["members"].append(f_)
+                    consts = [f_]
+                if consts:
+                    d = consts[(rs["dv"] + i) % len(consts)]["name"]
+                    lib.features.add("api.default.member_const." + consts[(rs["dv"] + i) % len(consts)]["vis"])
             defaults[i] = d
         ndef = sum(1 for d in defaults if d is not None)
         if lib.py_distinct:
